@@ -174,7 +174,7 @@ def run(specs, seed, mean_gap=40, concat=None):
     for th in threads:
         th.start()
     baton.start()
-    if not baton.finished.wait(120):
+    if not baton.finished.wait(600):
         return {"error": "threads did not finish (deadlock in the baton scheduler or a hang in the tree under test)"}
     for th in threads:
         th.join(5)
